@@ -84,6 +84,7 @@ theorem conv_diverges (g : Grammar) (o : Opts) (U : Nat → Prop) (hU : UnnamedL
     have hcu : truthy (customOf g u) = false := by unfold customOf; rw [hg]; exact hcust
     unfold conv
     simp only [hg]
+    unfold convBody
     rcases hcase with ⟨hpass, hkid⟩ | ⟨hpass, hw, hshown, hdisp, k, hk, hUk⟩
     · have hp : pre g o u n p i h s = .pass (n.kids.headD 0)
           (if !truthy ((g[n.kids.headD 0]?).bind (·.custom)) then some (nameOf n h) else none) := by
